@@ -84,6 +84,21 @@ func (e *Extractor) clone() *Extractor {
 		warnings:     append([]Warning(nil), e.warnings...),
 		ocrClient:    e.ocrClient,
 	}
+
+	// A reader this extractor opened itself stays its own: the derived extractor
+	// opens (and closes) its own reader, so a terminal operation on one of them
+	// never closes the handle the other one is still using
+	if e.ownsReader {
+		newExt.reader = nil
+		newExt.docxReader = nil
+		newExt.odtReader = nil
+		newExt.xlsxReader = nil
+		newExt.pptxReader = nil
+		newExt.htmlReader = nil
+		newExt.epubReader = nil
+		newExt.ownsReader = false
+		newExt.readerOpened = false
+	}
 	return newExt
 }
 
